@@ -55,7 +55,7 @@ func LoadEngine(repo string, patterns []string, tags string) (*Engine, error) {
 	}
 	prog, _ := ssautil.AllPackages(pkgs, ssa.InstantiateGenerics|ssa.GlobalDebug)
 	prog.Build()
-	eng := &Engine{prog: prog, fset: prog.Fset, pkgs: map[string]*packages.Package{}, spkgs: map[string]*ssa.Package{}, cs: NewContractSet(), inlineOK: map[string]bool{"io/fs": true}, srcCache: map[string][]string{}, repo: repo}
+	eng := &Engine{prog: prog, fset: prog.Fset, pkgs: map[string]*packages.Package{}, spkgs: map[string]*ssa.Package{}, cs: NewContractSet(), inlineOK: map[string]bool{"io/fs": true, "github.com/containerd/nri/pkg/api": true}, srcCache: map[string][]string{}, repo: repo}
 	packages.Visit(pkgs, nil, func(p *packages.Package) {
 		eng.pkgs[p.PkgPath] = p
 	})
